@@ -602,6 +602,22 @@ class Interp:
                 lo, hi = lb_of(w), ub_of(w)
                 if alts(w) is not None and lo is not None:
                     return lo, hi
+                return None
+            if isinstance(e, (ast.Call, ast.Subscript, ast.BinOp)) and not any(isinstance(x, ast.Name) and x.id == name for x in ast.walk(e)) and self.rematerialising < 4:
+                # e.g. `n > max(table)`: a parameter-valued expression, evaluated quietly in the current environment
+                self.rematerialising += 1
+                ev_save, self.events = self.events, []
+                try:
+                    w = self.ev(e, env, [])
+                except Exception:  # noqa: BLE001
+                    w = None
+                finally:
+                    self.events = ev_save
+                    self.rematerialising -= 1
+                if w is not None and alts(w) is not None and not w.deps:
+                    lo, hi = lb_of(w), ub_of(w)
+                    if lo is not None:
+                        return lo, hi
             return None
 
         for gd in g:
